@@ -515,7 +515,12 @@ def member_fact(unit, m):
                 ["0", "0", "0", "0"], P(unit, m.first, m.last), ev]
     kind = {"method": "method", "ctor": "ctor", "imethod": "imethod"}[m.kind]
     first = m.mods[0] if m.mods else None
-    first_annot = [annot_fact(first)] if isinstance(first, Annotation) and not m.type_params else []
+    if m.type_params:
+        first_annot = []
+    elif m.kind == "method":
+        first_annot = [annot_fact(x) for x in m.mods if isinstance(x, Annotation)]
+    else:
+        first_annot = [annot_fact(first)] if isinstance(first, Annotation) else []
     annots = [x.name for x in m.mods if isinstance(x, Annotation)]
     mods = [x for x in m.mods if not isinstance(x, Annotation)]
     ev = [["formal", prm[0].text(), prm[1]] for prm in m.params]
